@@ -217,7 +217,7 @@ def run(ctx):
     oks = [r for r in rows if r["outcome"] == "ok"]
     bad = [r for r in rows if r["outcome"] != "ok"]
     if quick:
-        oks = rnd.sample(oks, min(600, len(oks)))
+        oks = rnd.sample(oks, min(800, len(oks)))
         bad = rnd.sample(bad, min(400, len(bad)))
     for r in oks + bad:
         got = P.ctor_outcome(r["cfg"])
@@ -225,7 +225,7 @@ def run(ctx):
         ctx.case(("ctor", str(sorted(c.items()))), nontrivial=r["outcome"] == "ok", sample=dict(ctor=c, expected=r["outcome"], got=got))
         if r["outcome"] == "ok" and got != "ok":
             ctx.violation(dict(kind="ctor_valid_config_fails", got=got, halfway=c["halfway"], tol=c["tol"], cache=c["cache"],
-                               dt=c["dt"], order=c["order"]),
+                               dt=c["dt"], order=c["order"], ends=c.get("ends", "on")),
                           f"documented configuration {c}: {got}", replay=dict(ctor=c))
         elif r["outcome"] != "ok" and got == "ok":
             ctx.drift(f"constructor accepts undocumented configuration {c}")
